@@ -235,6 +235,19 @@ func jsonSubset(a, b interface{}, path string) string {
 	return ""
 }
 
+func firstDiff(a, b string) string {
+	for i := 0; i < len(a) && i < len(b); i++ {
+		if a[i] != b[i] {
+			lo := i - 60
+			if lo < 0 {
+				lo = 0
+			}
+			return fmt.Sprintf(" | first difference at %d: %q vs %q", i, a[lo:min(len(a), i+60)], b[lo:min(len(b), i+60)])
+		}
+	}
+	return fmt.Sprintf(" | lengths %d vs %d", len(a), len(b))
+}
+
 func toGeneric(v interface{}) interface{} {
 	var g interface{}
 	b, _ := json.Marshal(v)
@@ -393,7 +406,7 @@ func runC19(ctx *Ctx) *Result {
 			stored := srv.Get(simapi.Sets, "ns", "web").(*asv1.StatefulSet)
 			if pd.APIVersion != "apps/v1" || pd.Labels["patched"] != "yes" || stored.Labels["patched"] != "yes" || jsonOf(stored.Spec) != jsonOf(storedAfter.Spec) {
 				add(i, "patch-through-hijack", fmt.Sprintf("a metadata patch through the hijack client came back wrong or changed the spec: typed %s, label on result %q, label stored %q, spec diff: %s%s", pd.APIVersion, pd.Labels["patched"], stored.Labels["patched"],
-					jsonSubset(toGeneric(storedAfter.Spec), toGeneric(stored.Spec), "spec"), jsonSubset(toGeneric(stored.Spec), toGeneric(storedAfter.Spec), "spec")), nil)
+					jsonSubset(toGeneric(storedAfter.Spec), toGeneric(stored.Spec), "spec"), jsonSubset(toGeneric(stored.Spec), toGeneric(storedAfter.Spec), "spec")+firstDiff(jsonOf(stored.Spec), jsonOf(storedAfter.Spec))), nil)
 			}
 			again.ResourceVersion = pd.ResourceVersion
 		}
